@@ -707,15 +707,81 @@ theorem format_wf {cfg : Config} (c : Consts) {s : State} (h : s.WF cfg) (call :
 
 /-! ### The theorems -/
 
-/-- the states a formatter built from `cfg` can be in: after any sequence of calls of any kind -/
+/-! ### Aborted calls keep the invariant -/
+
+theorem partialWriteMetric_spec (name : Bytes) (fields : PBuf) {counts : PBuf} (hc : counts.WF countsPrefix)
+    (yielded : List Obs) (mult : Option Nat) :
+    fields.Ext (partialWriteMetric name fields counts yielded mult).1 ∧
+    (partialWriteMetric name fields counts yielded mult).2.WF countsPrefix := by
+  have h0 : fields.Ext (((fields.push 44).jsonString name).push 58) :=
+    ((PBuf.ext_push _ _).trans (PBuf.ext_jsonString _ _)).trans (PBuf.ext_push _ _)
+  unfold partialWriteMetric
+  split
+  · exact ⟨PBuf.Ext.refl _, hc⟩
+  · exact ⟨h0, hc⟩
+  · rename_i first rest _
+    simp only
+    have h1 := writeObservation_ext ((((fields.push 44).jsonString name).push 58).pushRaw (bytes! "{\"Values\":["))
+      counts.clear first mult
+    have h2 := obsLoop_ext mult rest
+      (writeObservation ((((fields.push 44).jsonString name).push 58).pushRaw (bytes! "{\"Values\":[")) counts.clear first mult).1
+      (writeObservation ((((fields.push 44).jsonString name).push 58).pushRaw (bytes! "{\"Values\":[")) counts.clear first mult).2.1
+      (writeObservation ((((fields.push 44).jsonString name).push 58).pushRaw (bytes! "{\"Values\":[")) counts.clear first mult).2.2
+    exact ⟨((h0.trans (PBuf.ext_pushRaw _ _)).trans h1.1).trans h2.1, (h1.2.trans h2.2).wf hc.clear⟩
+
+/-- whatever a panicking entry leaves behind, every buffer still starts with its prefix (in
+particular `counts_buf`, which an interrupted `Values` loop leaves non-empty) -/
+theorem abortedCall_wf {cfg : Config} (c : Consts) {s : State} (h : s.WF cfg) (a : Aborted) :
+    (abortedCall c s a).WF cfg := by
+  unfold abortedCall
+  have hw := foldl_applyItem_wf c a.mult a.items (w := Writer.start c s) h.startCall
+  generalize a.items.foldl (applyItem c a.mult) (Writer.start c s) = w at *
+  cases a.partialMetric with
+  | none => exact hw
+  | some p =>
+    obtain ⟨name, yielded, dims⟩ := p
+    simp only
+    have h1 : (metricPreCheck c (validateName c w name).1 dims).st.WF cfg := by
+      rw [metricPreCheck_st, validateName_st]; exact hw
+    generalize metricPreCheck c (validateName c w name).1 dims = w1 at *
+    split
+    · have h2 : (metricCheck c w1 name 0).st.WF cfg := by rw [metricCheck_counts]; exact h1
+      generalize metricCheck c w1 name 0 = w2 at *
+      obtain ⟨e1, e2⟩ := partialWriteMetric_spec name w2.st.fieldsBuf h2.c yielded a.mult
+      exact ⟨h2.sf, e1.wf h2.f, h2.m, h2.d, e2, h2.decl⟩
+    · have h2 : (metricCheck c w1 name (dimEntryFor c w1 (dimKeyOf dims)).index).st.WF cfg := by
+        rw [metricCheck_counts]; exact h1
+      generalize metricCheck c w1 name (dimEntryFor c w1 (dimKeyOf dims)).index = w2 at *
+      obtain ⟨-, e2⟩ := partialWriteMetric_spec name (dimEntryFor c w1 (dimKeyOf dims)).fieldsBuf h2.c yielded a.mult
+      exact ⟨h2.sf, h2.f, h2.m, h2.d, e2, h2.decl⟩
+
+theorem PBuf.clone_eq (b : PBuf) : b.clone = b := rfl
+
+theorem DimEntry.clone_eq (e : DimEntry) : e.clone = e := rfl
+
+/-- the derived `Clone` copies the state unchanged -/
+theorem State.clone_eq (s : State) : s.clone = s := by
+  cases s
+  simp only [State.clone, PBuf.clone_eq, State.mk.injEq, and_true]
+  have : DimEntry.clone = id := funext DimEntry.clone_eq
+  rw [this, List.map_id]
+
+/-- the states a formatter built from `cfg` can be in: the freshly built one; after any call on a
+formatter in a reachable state; the state of a formatter obtained by `Clone` (or moved into
+`with_sampling` / a `FormatExt` wrapper, which keep the very same state) from one in a reachable state;
+and the state a panicking entry (contained by the caller) leaves a formatter in -/
 inductive Reachable (cfg : Config) : State → Prop where
   | fresh : Reachable cfg (State.fresh cfg)
   | step {s : State} (call : Call) : Reachable cfg s → Reachable cfg (format (Consts.ofConfig cfg) s call).1
+  | clone {s : State} : Reachable cfg s → Reachable cfg s.clone
+  | abort {s : State} (a : Aborted) : Reachable cfg s → Reachable cfg (abortedCall (Consts.ofConfig cfg) s a)
 
 theorem Reachable.wf {cfg : Config} {s : State} (h : Reachable cfg s) : s.WF cfg := by
   induction h with
   | fresh => exact State.WF.fresh cfg
   | step call _ ih => exact format_wf _ ih call
+  | clone _ ih => rw [State.clone_eq]; exact ih
+  | abort a _ ih => exact abortedCall_wf _ ih a
 
 /-- the result of a call depends on the state only through the fixed buffer prefixes -/
 theorem format_of_wf {cfg : Config} (c : Consts) {s : State} (h : s.WF cfg) (call : Call) :
@@ -767,6 +833,91 @@ theorem c14_sequence (cfg : Config) (calls : List Call) :
     runCalls (Consts.ofConfig cfg) (State.fresh cfg) calls =
       calls.map fun call => (format (Consts.ofConfig cfg) (State.fresh cfg) call).2 :=
   runCalls_of_reachable cfg Reachable.fresh calls
+
+/-- what `runPool` must produce: every call on an existing formatter yields the fresh formatter's
+observable; `n` is the current size of the pool -/
+def specPool (cfg : Config) : Nat → List PoolOp → List (Result × Out)
+  | _, [] => []
+  | n, .call k call :: rest =>
+    if k < n then (format (Consts.ofConfig cfg) (State.fresh cfg) call).2 :: specPool cfg n rest
+    else specPool cfg n rest
+  | n, .clone k :: rest => if k < n then specPool cfg (n + 1) rest else specPool cfg n rest
+  | n, .abort _ _ :: rest => specPool cfg n rest
+
+theorem runPool_of_reachable (cfg : Config) (pool : List State) (hp : ∀ s ∈ pool, Reachable cfg s)
+    (ops : List PoolOp) : runPool (Consts.ofConfig cfg) pool ops = specPool cfg pool.length ops := by
+  induction ops generalizing pool with
+  | nil => rfl
+  | cons op rest ih =>
+    cases op with
+    | call k call =>
+      simp only [runPool, specPool]
+      cases hk : pool[k]? with
+      | none =>
+        have : ¬ k < pool.length := by
+          intro h; rw [List.getElem?_eq_getElem h] at hk; cases hk
+        simp only [this, ↓reduceIte]
+        exact ih pool hp
+      | some s =>
+        have hlt : k < pool.length := by
+          by_cases h : k < pool.length
+          · exact h
+          · rw [List.getElem?_eq_none (by omega)] at hk; cases hk
+        have hs : Reachable cfg s := hp s (List.mem_of_getElem? hk)
+        simp only [hlt, ↓reduceIte]
+        rw [c14_history_independent cfg hs call]
+        congr 1
+        have := ih (pool.set k (format (Consts.ofConfig cfg) s call).1) (by
+          intro x hx
+          rcases List.mem_or_eq_of_mem_set hx with h | h
+          · exact hp x h
+          · subst h; exact Reachable.step call hs)
+        rw [this, List.length_set]
+    | clone k =>
+      simp only [runPool, specPool]
+      cases hk : pool[k]? with
+      | none =>
+        have : ¬ k < pool.length := by
+          intro h; rw [List.getElem?_eq_getElem h] at hk; cases hk
+        simp only [this, ↓reduceIte]
+        exact ih pool hp
+      | some s =>
+        have hlt : k < pool.length := by
+          by_cases h : k < pool.length
+          · exact h
+          · rw [List.getElem?_eq_none (by omega)] at hk; cases hk
+        have hs : Reachable cfg s := hp s (List.mem_of_getElem? hk)
+        simp only [hlt, ↓reduceIte]
+        have := ih (pool ++ [s.clone]) (by
+          intro x hx
+          rcases List.mem_append.mp hx with h | h
+          · exact hp x h
+          · simp only [List.mem_singleton] at h; subst h; exact Reachable.clone hs)
+        rw [this, List.length_append]; rfl
+    | abort k a =>
+      simp only [runPool, specPool]
+      cases hk : pool[k]? with
+      | none => exact ih pool hp
+      | some s =>
+        have hs : Reachable cfg s := hp s (List.mem_of_getElem? hk)
+        simp only
+        have := ih (pool.set k (abortedCall (Consts.ofConfig cfg) s a)) (by
+          intro x hx
+          rcases List.mem_or_eq_of_mem_set hx with h | h
+          · exact hp x h
+          · subst h; exact Reachable.abort a hs)
+        rw [this, List.length_set]
+
+/-- **C14 with clones and panicking entries** (what the harness observes): start with one freshly
+built formatter; in any order format entries on any formatter of the pool, clone any formatter of the
+pool (a clone of a used formatter, of a clone, of a never-used one …) and let entries panic mid-way on
+any formatter (after any number of completed fields, after any number of observations of a
+distribution). Every completed call, on the original or on any clone, yields exactly what a freshly
+built formatter yields for that entry alone. -/
+theorem c14_clones (cfg : Config) (ops : List PoolOp) :
+    runPool (Consts.ofConfig cfg) [State.fresh cfg] ops = specPool cfg 1 ops :=
+  runPool_of_reachable cfg [State.fresh cfg] (by
+    intro s hs; simp only [List.mem_singleton] at hs; subst hs; exact Reachable.fresh) ops
 
 /-- **C14, state form**: the invariant behind the theorem — after any history every buffer still
 starts with its fixed prefix, so the `assert!(combined_len >= prefix_len)` of `truncate` and the
@@ -902,9 +1053,39 @@ example :
       .validation [.duplicateField, .missingDimension] := by
   decide +kernel
 
+/-- an entry whose distribution iterator panics after three observations leaves `counts_buf` holding
+`],"Counts":[1,1,1` — NOT its bare prefix: the only thing between that residue and the next record is
+the `counts.clear()` *before* use in `write_metric_value` (`writeValues_counts`); the call after it is
+nevertheless exactly the fresh formatter's (instance of `c14_history_independent`, evaluated). -/
+example :
+    (abortedCall (Consts.ofConfig exCfg) (State.fresh exCfg)
+      { items := [.timestamp 1], partialMetric := some (bytes! "M", [.unsigned 5, .unsigned 6, .unsigned 7], []),
+        mult := none }).countsBuf.buf = bytes! "],\"Counts\":[1,1,1" ∧
+    (format (Consts.ofConfig exCfg) (abortedCall (Consts.ofConfig exCfg) (State.fresh exCfg)
+      { items := [.timestamp 1], partialMetric := some (bytes! "M", [.unsigned 5, .unsigned 6, .unsigned 7], []),
+        mult := none }) exSplit).2 = (format (Consts.ofConfig exCfg) (State.fresh exCfg) exSplit).2 := by
+  decide +kernel
+
+/-- a clone must copy `prefix_len`: the wrong `Clone` that rebuilds every buffer with
+`from_prefix(whole buffer)` (`State.cloneAsPrefix`) is NOT history independent — a clone taken after
+one accepted entry prepends that entry's leftovers to what it writes; a clone of a never-used
+formatter is fine, which is why only sequences "use, clone, use the clone" expose it. -/
+example :
+    (format (Consts.ofConfig exCfg) (format (Consts.ofConfig exCfg) (State.fresh exCfg) exSplit).1.cloneAsPrefix exSplit).2 ≠
+      (format (Consts.ofConfig exCfg) (State.fresh exCfg) exSplit).2 ∧
+    (format (Consts.ofConfig exCfg) (State.fresh exCfg).cloneAsPrefix exSplit).2 =
+      (format (Consts.ofConfig exCfg) (State.fresh exCfg) exSplit).2 ∧
+    ¬ (format (Consts.ofConfig exCfg) (State.fresh exCfg) exSplit).1.cloneAsPrefix.WF exCfg := by
+  refine ⟨by decide +kernel, by decide +kernel, ?_⟩
+  intro h
+  have := h.f.1
+  revert this
+  decide +kernel
+
 end Emf
 
 #print axioms Emf.c14_history_independent
+#print axioms Emf.c14_clones
 #print axioms Emf.c14_sequence
 #print axioms Emf.c14_prefixes_kept
 #print axioms Emf.c14_map_order_irrelevant
